@@ -313,6 +313,10 @@ class Worker(metaclass=SupportClassPropertiesMeta):
             > nor that they won't. This might change in the future, so that the behaviour is consistent at least in the case of ``user_state``,
             > if proven beneficial.
         '''
+        if self._started and not self.is_child:
+            # the last state arrives together with the final result: adopt both as soon as the worker is known to be dead,
+            # not only when has_error / result / error happen to be read first
+            self._get_result()
         return self._user_state
 
     @user_state.setter
